@@ -392,6 +392,7 @@ func (self *Pipestance) KillWithMessage(message string) {
 // those transitions may have already hapend so the forks need to be computed
 // at the moment of reattachment instead.
 func (self *Pipestance) RestoreForks(ctx context.Context) {
+	util.VerifPoint("ps:restoreForks")
 	defer trace.StartRegion(ctx, "restoreForks").End()
 	for _, node := range self.allNodes() {
 		node.expandForks(false)
@@ -448,6 +449,7 @@ func (self *Pipestance) RestartRunningNodes(jobMode string, outerCtx context.Con
 // This is nessessary for when e.g. mrp is restarted in local mode after ctrl-C
 // kills it and all of its child processes.
 func (self *Pipestance) RestartLocalJobs(jobMode string) error {
+	util.VerifPoint("ps:restartLocalJobs")
 	if self.readOnly() {
 		return &RuntimeError{"Pipestance is in read only mode."}
 	}
@@ -627,6 +629,7 @@ func (self *Pipestance) StepNodes(ctx context.Context) bool {
 				"Error refreshing cluster resources: %s", err.Error())
 		}
 	}
+	util.VerifPoint("step:begin")
 	hadProgress := false
 	for _, node := range self.node.getFrontierNodes() {
 		hadProgress = node.step() || hadProgress
@@ -640,6 +643,7 @@ func (self *Pipestance) StepNodes(ctx context.Context) bool {
 }
 
 func (self *Pipestance) Reset() error {
+	util.VerifPoint("ps:reset")
 	if self.readOnly() {
 		return &RuntimeError{"Pipestance is in read only mode."}
 	}
@@ -807,6 +811,7 @@ func (self *Pipestance) GetVersions() (string, string, error) {
 }
 
 func (self *Pipestance) PostProcess() {
+	util.VerifPoint("ps:postprocess")
 	ctx, task := trace.NewTask(context.Background(), "PostProcess")
 	defer task.End()
 	self.node.postProcess(ctx)
@@ -893,6 +898,7 @@ func (self *Pipestance) Lock() error {
 	if self.metadata.exists(Lock) {
 		return &PipestanceLockedError{self.node.top.GetPsid(), self.GetPath()}
 	}
+	util.VerifPoint("ps:lock")
 	util.RegisterSignalHandler(self)
 	if err := self.metadata.WriteTime(Lock); err != nil {
 		util.LogError(err, "runtime", "Error writing pipestance lock file.")
@@ -901,6 +907,7 @@ func (self *Pipestance) Lock() error {
 }
 
 func (self *Pipestance) unlock() {
+	util.VerifPoint("ps:unlock")
 	if err := self.metadata.remove(Lock); err != nil {
 		util.LogError(err, "runtime", "Error removing pipestance lock file.")
 	}
